@@ -140,13 +140,11 @@ func (g *registry) source() sqlgen.LiteralSource {
 }
 
 var (
-	reMK     = regexp.MustCompile(`MK[0-9a-f]{16}`)
-	reHexMK  = regexp.MustCompile(`(?i)4d4b[0-9a-f]{12}`)
+	reMK    = regexp.MustCompile(`MK[0-9a-f]{16}`)
+	reHexMK = regexp.MustCompile(`(?i)4d4b[0-9a-f]{12}`)
 )
 
 func isLetter(c byte) bool { return c >= 'a' && c <= 'z' || c >= 'A' && c <= 'Z' }
-
-var reBitMK = regexp.MustCompile(`1011[01]{28}`)
 
 type hit struct {
 	Token string
@@ -184,13 +182,6 @@ func (g *registry) scan(text string) []hit {
 	if strings.Contains(text, "4d4b") || strings.Contains(text, "4D4B") {
 		for _, m := range reHexMK.FindAllString(text, -1) {
 			if mi, ok := g.lookup(strings.ToLower(m)); ok {
-				hits = append(hits, hit{m, mi})
-			}
-		}
-	}
-	if strings.Contains(text, "1011") {
-		for _, m := range reBitMK.FindAllString(text, -1) {
-			if mi, ok := g.lookup(m); ok {
 				hits = append(hits, hit{m, mi})
 			}
 		}
